@@ -2,4 +2,11 @@ package main
 
 import "qedverif/cq"
 
-func dispatch10(cmd string, out *cq.Out, seed uint64, tier, arg string) bool { return false }
+func dispatch10(cmd string, out *cq.Out, seed uint64, tier, arg string) bool {
+	switch cmd {
+	case "sender":
+		senderCmd(out, seed, tier)
+		return true
+	}
+	return dispatch11(cmd, out, seed, tier, arg)
+}
